@@ -183,6 +183,83 @@ Definition tvf_poll_pinned (src pi : option akind) : list tvf_arg :=
 Definition tvf_poll (src pi : option akind) : list tvf_arg :=
   [mktvf KTable KTable KTable true src; mktvf KExpr KExpr KExpr false pi].
 
+(* ==== sites found after the first round ==== *)
+Definition site_limit_no_record : Z := 13.
+Definition site_json_nil_element : Z := 14.
+Definition site_join_retraction : Z := 15.
+Definition site_coalesce_tuple : Z := 16.
+Definition site_repeat_memory : Z := 17.
+Definition err_unknown_variable : Z := 7.
+Definition err_not_int : Z := 8.
+Definition err_tuple_length : Z := 9.
+
+(* ---- 12. the outermost LIMIT (cmd/root.go): the expression is evaluated once, with a nil VariableContext.
+   [lvars] = the column references in it, [lint] = its static type is Int.  Pinned: typechecked against the output
+   schema (columns resolve) with no type expectation; Variable.Evaluate then dereferences the nil context.
+   After fix c96f03c: typechecked like a subquery's limit — no record schema (a column is an unknown variable) and
+   expected type Int. ---- *)
+Record limexpr := mklim { lvars : list Z; lint : bool }.
+Definition limit_eval_pinned (cols : list Z) (e : limexpr) : outcome bool :=
+  if forallb (fun v => existsb (Z.eqb v) cols) (lvars e)
+  then match lvars e with [] => Ok (lint e) | _ :: _ => Panic site_limit_no_record end
+  else Err err_unknown_variable.
+Definition limit_eval (cols : list Z) (e : limexpr) : outcome bool :=
+  match lvars e with
+  | _ :: _ => Err err_unknown_variable
+  | [] => if lint e then Ok true else Err err_not_int
+  end.
+
+(* ---- 13. JSON datasource getOctoSQLValue on list types: the type of the empty list has no element type
+   (t.List.Element == nil).  Pinned: a non-empty array dereferences it.  After the fix (C24): only an empty array
+   fits that type. ---- *)
+Inductive jty := JList (elem : option jty) | JScalarTy.
+Inductive jv := JArr (l : list jv) | JScalar.
+Fixpoint get_value (pinned : bool) (t : jty) (v : jv) {struct v} : outcome bool :=
+  match t, v with
+  | JList None, JArr [] => Ok true
+  | JList None, JArr (_ :: _) => if pinned then Panic site_json_nil_element else Ok false
+  | JList (Some et), JArr l =>
+      (fix go (l : list jv) : outcome bool :=
+         match l with
+         | [] => Ok true
+         | x :: rest => obind (get_value pinned et x) (fun a => obind (go rest) (fun b => Ok (a && b)))
+         end) l
+  | JScalarTy, JScalar => Ok true
+  | _, _ => Ok false
+  end.
+
+(* ---- 14. StreamJoin / OuterJoin receiveRecord: a retraction does subitem.EventTimes = subitem.EventTimes[1:]; for a row
+   that is not in the tree the sub-item was just created with no event times.  Still in the tree on main: finding
+   class c18-join-retraction-unmatched (reached in-process by a retraction that is processed before its insertion; no
+   SQL query over files was found to reach it). ---- *)
+Definition join_retract_pinned (times : list Z) : outcome (list Z) :=
+  match times with [] => Panic site_join_retraction | _ :: rest => Ok rest end.
+Definition join_retract (times : list Z) : outcome (list Z) :=
+  match times with [] => Ok [] | _ :: rest => Ok rest end.
+(* the event-time list of one row after a sequence of insertions (false) and retractions (true) *)
+Fixpoint join_row_history (pinned : bool) (times : list Z) (ops : list bool) : outcome (list Z) :=
+  match ops with
+  | [] => Ok times
+  | false :: rest => join_row_history pinned (times ++ [0]) rest
+  | true :: rest => obind (if pinned then join_retract_pinned times else join_retract times)
+                          (fun t => join_row_history pinned t rest)
+  end.
+
+(* ---- 15. COALESCE: calculateMapping(targetType, sourceType) for tuples ranges over the TARGET's elements and reads
+   sourceType.Tuple.Elements[i]; the output type of COALESCE over tuples of different lengths is the longer tuple.
+   Runs when the plan is materialized, outside the recover.  Still on main: C13's finding coalesce-tuple-length. ---- *)
+Definition coalesce_mapping_pinned (target_len : nat) (source_lens : list nat) : outcome unit :=
+  if forallb (fun n => target_len <=? n)%nat source_lens then Ok tt else Panic site_coalesce_tuple.
+Definition coalesce_mapping (target_len : nat) (source_lens : list nat) : outcome unit :=
+  if forallb (fun n => target_len <=? n)%nat source_lens then Ok tt else Err err_tuple_length.
+
+(* ---- 16. string repetition beyond memory: the count is non-negative and len*count fits an int, but not the machine.
+   [mem] = the largest allocation the runtime grants.  Still on main: C13's finding repeat-beyond-memory. ---- *)
+Definition repeat_alloc_pinned (mem len count : Z) : outcome Z :=
+  obind (repeat_len len count) (fun n => if mem <? n then Panic site_repeat_memory else Ok n).
+Definition repeat_alloc (mem len count : Z) : outcome Z :=
+  obind (repeat_len len count) (fun n => if mem <? n then Err err_too_long else Ok n).
+
 (* ---- the differential case: what the CLI did on one generated query ----
    (crashed: stderr has "panic:" / "goroutine " or the exit status is 2) *)
 Definition c07_case : Type := bool.
